@@ -1,7 +1,10 @@
 """C08 — validity masks follow the data through every operation that keeps or maps cells.
 
-A case is either a PROGRAM (SSA list of public Field operations over 1-3 input fields on one
-exact-regime mesh, executed step by step on the real code) or a SETTER case (one assignment
+A case is a PROGRAM (SSA list of public Field operations over 1-3 input fields on one exact-regime
+mesh, executed step by step on the real code; the model evaluates ONE inlined expression per
+step), a SESSION (`hist`: statements over numbered variables mixing builds with IN-PLACE changes of
+existing fields — `x.valid = spec`, `x.valid[idx] = v`, `x.rotate90(inplace=True)`, `y = +x`; the
+model runs the same statements over its store of buffers) or a SETTER case (one assignment
 `field.valid = spec` / `Field(..., valid=spec)`).
 
 Oracle (real code alone, after EVERY step): the result's `valid` is a bool array of shape
@@ -26,23 +29,42 @@ import discretisedfield as df
 
 PID = "C08"
 RULE = ("programs: every public Field operation that returns a field (unary/derived: - abs norm orientation component "
-        "real imag conjugate phase abs diff grad div curl laplace numpy-ufuncs; with number/vector/array operand in both "
-        "positions incl. numpy scalars/arrays on the left; field-with-field: + - * / dot cross angle << ufuncs, scalar with "
+        "real imag conjugate phase abs diff grad div curl laplace numpy-ufuncs constructor; with number/vector/array operand in "
+        "both positions incl. numpy scalars/arrays on the left; field-with-field: + - * / dot cross angle << ufuncs, scalar with "
         "vector in both orders, different masks; sel plane/range, field[region], pad x 5 modes, resample, rotate90 (copy and "
-        "in place, k=-5..6), VTK (txt/bin/xml) and HDF5 round trips; mean/integrate/fftn structurally) once per flavour on "
-        "1-4-d meshes plus random compositions of 2-5 steps; setter: None, numbers, bool/int/float arrays and nested lists of "
-        "shape n, (*n,1) and broadcastable shapes, callables, 'norm' with lengths straddling 1e-8, malformed arguments, by "
-        "assignment and through the constructor. non-trivial = some input mask mixed")
-TRUSTED = ["harness/c08.py, harness/fieldio.py + driver JSON glue",
+        "in place, k=-5..6), VTK (txt/bin/xml) and HDF5 round trips; mean (one and two directions) / integrate / cumulative "
+        "integrate / fftn / rfftn / ifftn: mask VALUES compared with the model) once per flavour on 1-4-d meshes plus random "
+        "compositions of 2-5 steps (model: ONE inlined expression per step); sessions of 3-7 statements mixing builds with "
+        "IN-PLACE changes of existing fields (x.valid = spec, x.valid[idx] = v, x.rotate90(inplace=True), y = +x): after every "
+        "statement the masks of ALL variables, which variables are one object and which share memory are compared with the "
+        "model's store, and on the code alone: no other field's mask or values change; setter: None, numbers, bool/int/float "
+        "arrays and nested lists of shape n, (*n,1) and broadcastable shapes, callables, 'norm' with lengths straddling 1e-8, "
+        "Boolean scalar FIELDS on the same / a larger / a non-containing region, malformed arguments, by assignment and "
+        "through the constructor. non-trivial = some input mask mixed")
+TRUSTED = ["harness/c08.py, harness/fieldio.py + driver JSON glue (compound operations grad/div/curl/laplace/sum/<< number/"
+           "reflected/ufunc are built by the Lean model, not by the harness)",
            "np.pad / np.rot90 / fancy slicing / xarray nearest lookup / h5py / VTK modelled by contract (index maps), validated by the run",
            "np.shares_memory as the observation of buffer identity"]
 ASSUMPTIONS = ["exact-regime geometry (dyadic corners and cells): plane/range/region arguments and resampling targets decide "
                "their cell without rounding; resampling targets are tie-free unless the target cell size is dyadic",
                "'norm': cells whose squared length is within 2^-30 (relative) of 1e-16 are not compared"]
-UNPROVED = ["ownership (a result's validity is its own) is a requirement stated on the store model (every node allocates; "
-            "theorems result_owns_validity / write_leaves_operands) and OBSERVED on the code with np.shares_memory and "
-            "write-through probes; unary plus returns its operand (open finding D7)",
-            "values of masks returned by mean / integrate / fftn family (new cell sets, not named by the property) are not compared"]
+UNPROVED = ["ownership (a result's validity is its own) is a REQUIREMENT stated on the store model (every statement that "
+            "builds a field or assigns validity binds a new buffer; theorems session_invariant / session_ownership / "
+            "session_write_isolated over all histories with in-place changes, result_owns_validity / write_leaves_operands per "
+            "expression) and OBSERVED on the code with np.shares_memory, write-through probes and persistent in-place writes "
+            "in sessions; that NumPy's np.array(..., dtype=bool) copies is not provable in Lean; unary plus returns its operand "
+            "(open finding D7, mirrored by the model: session_unary_plus_shares)",
+            "masks of mean / integrate / fftn family (new cell sets, not named by the property): modelled (all cells valid, shape "
+            "of the new mesh: valid_fresh) and compared with the code, but the oracle on the code alone checks them only "
+            "structurally; irfftn is not exercised",
+            "setter arguments outside the property's list: a dict over subregions is not modelled; a scalar FIELD is modelled at "
+            "mask level for Boolean fields only (setter_field_lookup, resample_is_field_setter) - a REAL-valued field keeps its "
+            "float dtype in the code (finding D111, generated only with VERIF_C08_FIELD_REAL=1)",
+            "object level: theorems speak about the validity array of each Field (and pairs (value, validity) for the mapping "
+            "operations); that the Fld-level operations of C03/C05/C07 hand exactly these arrays to the constructor is checked "
+            "by the correspondence runs of those properties and of this one, not by a Lean theorem linking the models",
+            "in-place rotate90 turns the Mesh OBJECT, which results share with their operand (g = -f; g.rotate90(inplace=True) "
+            "leaves f.valid.shape != f.mesh.n): sessions turn only fields with a mesh of their own (C12/C13 matter, reported)"]
 BUDGET = {"quick": 150, "thorough": 1500}
 
 PAD_MODES = ["constant", "edge", "wrap", "symmetric", "reflect"]
@@ -135,6 +157,13 @@ simple_unary("phase", lambda f: f.phase, rt=lambda t: with_(t, cplx=False))
 simple_unary("absprop", lambda f: f.abs, rt=lambda t: with_(t, cplx=False))
 
 
+@op("clone", 1, "same")
+class _Clone(Base):
+    """the constructor: a new Mesh object and `Field(mesh, value=f.array, valid=f.valid, ...)`"""
+    run = staticmethod(lambda fs, a: clone(fs[0]))
+    node = staticmethod(lambda cs, a, o: dict(t="un", p=cs[0]))
+
+
 @op("comp", 1, "same")
 class _Comp(Base):
     @staticmethod
@@ -170,19 +199,13 @@ def binC(p):
     return dict(t="binC", p=p)
 
 
-def chain_lshift(nodes):
-    r = nodes[0]
-    for x in nodes[1:]:
-        r = binF(r, x)
-    return r
+def ufunc(*cs):
+    """a NumPy ufunc with these field inputs (`Field.__array_ufunc__`): the model's `ufuncProg`"""
+    return dict(t="ufunc", ps=list(cs))
 
 
-def sum_nodes(nodes):
-    # Python's sum(): 0 + a + b + ...
-    r = binC(nodes[0])
-    for x in nodes[1:]:
-        r = binF(r, x)
-    return r
+# grad / div / curl / laplace / sum / stacking / f << number / reflected operators are COMPOUND operations of
+# field.py: their programs are built by the Lean model itself (gradProg, divProg, ... in Model/C08.lean)
 
 
 @op("grad", 1, "same")
@@ -195,7 +218,7 @@ class _Grad(Base):
         return with_(tys[0], nvdim=nd, vd=nd >= 2, mp=defmap(tys[0]["dims"], nd))
 
     run = staticmethod(lambda fs, a: fs[0].grad)
-    node = staticmethod(lambda cs, a, o: chain_lshift([un(cs[0]) for _ in range(o["ndim_in"])]))
+    node = staticmethod(lambda cs, a, o: dict(t="grad", nd=o["ndim_in"], p=cs[0]))
 
 
 @op("div", 1, "same")
@@ -208,7 +231,7 @@ class _Div(Base):
 
     rtype = staticmethod(lambda tys, a: scalar(tys[0]))
     run = staticmethod(lambda fs, a: fs[0].div)
-    node = staticmethod(lambda cs, a, o: sum_nodes([un(un(cs[0])) for _ in range(o["nvdim_in"])]))
+    node = staticmethod(lambda cs, a, o: dict(t="div", nv=o["nvdim_in"], p=cs[0]))
 
 
 @op("curl", 1, "same")
@@ -221,7 +244,7 @@ class _Curl(Base):
 
     rtype = staticmethod(lambda tys, a: with_(tys[0], mp=list(tys[0]["dims"])))
     run = staticmethod(lambda fs, a: fs[0].curl)
-    node = staticmethod(lambda cs, a, o: chain_lshift([binF(un(un(cs[0])), un(un(cs[0]))) for _ in range(3)]))
+    node = staticmethod(lambda cs, a, o: dict(t="curl", p=cs[0]))
 
 
 @op("laplace", 1, "same")
@@ -239,12 +262,7 @@ class _Laplace(Base):
 
     run = staticmethod(lambda fs, a: fs[0].laplace)
 
-    @staticmethod
-    def node(cs, a, o):
-        nd = o["ndim_in"]
-        if o["nvdim_in"] == 1:
-            return sum_nodes([un(cs[0]) for _ in range(nd)])
-        return chain_lshift([sum_nodes([un(un(cs[0])) for _ in range(nd)]) for _ in range(o["nvdim_in"])])
+    node = staticmethod(lambda cs, a, o: dict(t="laplace", nd=o["ndim_in"], nv=o["nvdim_in"], p=cs[0]))
 
 
 def _ufunc1(f, name):
@@ -255,7 +273,7 @@ def _ufunc1(f, name):
 class _Ufunc1(Base):
     gen = staticmethod(lambda tys, rng: dict(u=rng.choice(UFUNC1)) if real_(tys[0]) else None)
     run = staticmethod(lambda fs, a: _ufunc1(fs[0], a["u"]))
-    node = staticmethod(lambda cs, a, o: un(cs[0]))
+    node = staticmethod(lambda cs, a, o: ufunc(cs[0]))
 
 
 # ---- binary with a number / vector / array --------------------------------------------------
@@ -276,13 +294,13 @@ BINC = {
     "mulvec": (lambda f: f * _vec(f.nvdim), None, None),
     "addlist": (lambda f: f + list(_vec(f.nvdim)), None, None),
     "mularr": (lambda f: f * (2.0 * np.ones(f.array.shape)), None, None),
-    "npf64_left": (lambda f: np.float64(2.0) * f, real_, None),
+    "npf64_left": (lambda f: np.float64(2.0) * f, real_, "ufunc"),
     "npf64_right": (lambda f: f * np.float64(2.0), None, None),
-    "npint_left": (lambda f: np.int64(3) + f, real_, None),
-    "ndarray_left": (lambda f: np.array(_vec(f.nvdim)) * f, real_, None),
-    "ndarray_full_left": (lambda f: (2.0 * np.ones(f.array.shape)) - f, real_, None),
-    "np_add_num": (lambda f: np.add(f, 2.0), real_, None),
-    "np_mul_num_left": (lambda f: np.multiply(2.0, f), real_, None),
+    "npint_left": (lambda f: np.int64(3) + f, real_, "ufunc"),
+    "ndarray_left": (lambda f: np.array(_vec(f.nvdim)) * f, real_, "ufunc"),
+    "ndarray_full_left": (lambda f: (2.0 * np.ones(f.array.shape)) - f, real_, "ufunc"),
+    "np_add_num": (lambda f: np.add(f, 2.0), real_, "ufunc"),
+    "np_mul_num_left": (lambda f: np.multiply(2.0, f), real_, "ufunc"),
 }
 
 
@@ -291,8 +309,11 @@ def _mk_binc(name, fn, cond, special):
     class _B(Base):
         gen = staticmethod(lambda tys, rng: {} if (cond is None or cond(tys[0])) else None)
         run = staticmethod(lambda fs, a: fn(fs[0]))
-        # __rsub__ is `-self + other`
-        node = staticmethod((lambda cs, a, o: binC(un(cs[0]))) if special == "rsub" else (lambda cs, a, o: binC(cs[0])))
+        # __rsub__ is `-self + other` (model: rsubProg); NumPy scalars / arrays on the left and np.<ufunc>(f, number) go
+        # through Field.__array_ufunc__ (model: ufuncProg with one field input)
+        node = staticmethod({"rsub": (lambda cs, a, o: dict(t="rsub", p=cs[0])),
+                             "ufunc": (lambda cs, a, o: ufunc(cs[0])),
+                             None: (lambda cs, a, o: binC(cs[0]))}[special])
     return _B
 
 
@@ -316,7 +337,7 @@ _mk_binc_shape("rmatmulvec", lambda f: _vec(f.nvdim) @ f, real_, scalar, lambda 
 _mk_binc_shape("crossvec", lambda f: f & (0.0, 0.0, 1.0), lambda t: real_(t) and t["nvdim"] == 3 and t["vd"],
                lambda t: with_(t, mp=defmap(t["dims"], 3)), lambda cs, a, o: binC(cs[0]))
 _mk_binc_shape("rcrossvec", lambda f: (0.0, 1.0, 0.0) & f, lambda t: real_(t) and t["nvdim"] == 3 and t["vd"],
-               lambda t: with_(t, mp=defmap(t["dims"], 3)), lambda cs, a, o: un(binC(cs[0])))
+               lambda t: with_(t, mp=defmap(t["dims"], 3)), lambda cs, a, o: dict(t="rcross", p=cs[0]))
 _mk_binc_shape("anglevec", lambda f: f.angle(_vec(f.nvdim)), real_, scalar, lambda cs, a, o: binC(cs[0]))
 
 
@@ -325,10 +346,10 @@ def _lshift_type(t, extra):
     return with_(t, nvdim=nv, vd=True, mp=defmap(t["dims"], nv))
 
 
-_mk_binc_shape("lshiftnum", lambda f: f << 3, real_, lambda t: _lshift_type(t, 1), lambda cs, a, o: binC(cs[0]))
-_mk_binc_shape("rlshiftnum", lambda f: 3 << f, real_, lambda t: _lshift_type(t, 1), lambda cs, a, o: binC(cs[0]))
-_mk_binc_shape("lshiftvec", lambda f: f << (1.0, 2.0), real_, lambda t: _lshift_type(t, 2), lambda cs, a, o: binC(cs[0]))
-_mk_binc_shape("rlshiftvec", lambda f: [1.0, 2.0] << f, real_, lambda t: _lshift_type(t, 2), lambda cs, a, o: binC(cs[0]))
+_mk_binc_shape("lshiftnum", lambda f: f << 3, real_, lambda t: _lshift_type(t, 1), lambda cs, a, o: dict(t="lshiftC", p=cs[0]))
+_mk_binc_shape("rlshiftnum", lambda f: 3 << f, real_, lambda t: _lshift_type(t, 1), lambda cs, a, o: dict(t="rlshiftC", p=cs[0]))
+_mk_binc_shape("lshiftvec", lambda f: f << (1.0, 2.0), real_, lambda t: _lshift_type(t, 2), lambda cs, a, o: dict(t="lshiftC", p=cs[0]))
+_mk_binc_shape("rlshiftvec", lambda f: [1.0, 2.0] << f, real_, lambda t: _lshift_type(t, 2), lambda cs, a, o: dict(t="rlshiftC", p=cs[0]))
 
 
 # ---- binary between two fields -------------------------------------------------------------
@@ -386,7 +407,8 @@ def _mk_binf(name, fn, cond, rt):
         gen = staticmethod(lambda tys, rng: {} if cond(tys) else None)
         rtype = staticmethod(lambda tys, a: rt(tys, a))
         run = staticmethod(lambda fs, a: fn(fs[0], fs[1]))
-        node = staticmethod(lambda cs, a, o: binF(cs[0], cs[1]))
+        # np.add(f, g) ... go through Field.__array_ufunc__ (np.logical_and.reduce over the field inputs)
+        node = staticmethod((lambda cs, a, o: ufunc(cs[0], cs[1])) if name.startswith("np_") else (lambda cs, a, o: binF(cs[0], cs[1])))
     return _B
 
 
@@ -647,8 +669,13 @@ class _H5(Base):
     node = staticmethod(lambda cs, a, o: dict(t="hdf5", p=cs[0]))
 
 
-# ---- results on new cell sets: structural checks only (their mask becomes a model leaf) -----------
-def _mk_free(name, fn, cond, rt):
+# ---- results on new cell sets (built without `valid=`): the property does not name them, so the oracle checks them
+# structurally only; their VALUES (all cells valid, shape of the new mesh) are compared with the model's `fresh` nodes
+def fresh(k, c, **kw):
+    return dict(t="fresh", op=dict(k=k, **kw), p=c)
+
+
+def _mk_free(name, fn, cond, rt, node):
     @op(name, 1, "free")
     class _Fr(Base):
         @staticmethod
@@ -657,7 +684,7 @@ def _mk_free(name, fn, cond, rt):
 
         rtype = staticmethod(lambda tys, a: rt(tys[0], a))
         run = staticmethod(lambda fs, a: fn(fs[0], fs[0].mesh.region.dims[a["ax"]]))
-        node = None
+    _Fr.node = staticmethod(node)
     return _Fr
 
 
@@ -666,12 +693,51 @@ def _red_type(t, a):
                  mp=[d for d in t["mp"] if d != t["dims"][a["ax"]]], grp=t["grp"] + f"|red{a['ax']}")
 
 
-_mk_free("mean_dir", lambda f, d: f.mean(direction=d), lambda t: len(t["n"]) >= 2, _red_type)
-_mk_free("integrate_dir", lambda f, d: f.integrate(direction=d), lambda t: len(t["n"]) >= 2 and real_(t), _red_type)
-_mk_free("integrate_cum", lambda f, d: f.integrate(direction=d, cumulative=True), real_, lambda t, a: dict(t))
-_FINAL_ONLY = {"fftn": lambda f, d: f.fftn(), "rfftn": lambda f, d: f.rfftn(), "fft_roundtrip": lambda f, d: f.fftn().ifftn()}
-for _n, _f in _FINAL_ONLY.items():
-    _mk_free(_n, _f, real_, lambda t, a: with_(t, cplx=True, grp="K"))
+_mk_free("mean_dir", lambda f, d: f.mean(direction=d), lambda t: len(t["n"]) >= 2, _red_type,
+         lambda cs, a, o: fresh("reduce", cs[0], axes=[a["ax"]]))
+_mk_free("integrate_dir", lambda f, d: f.integrate(direction=d), lambda t: len(t["n"]) >= 2 and real_(t), _red_type,
+         lambda cs, a, o: fresh("reduce", cs[0], axes=[a["ax"]]))
+_mk_free("integrate_cum", lambda f, d: f.integrate(direction=d, cumulative=True), real_, lambda t, a: dict(t),
+         lambda cs, a, o: fresh("same", cs[0]))
+
+
+def _other_ax(a, nd):
+    return (a["ax"] + 1 + a.get("off", 0)) % nd
+
+
+@op("mean_dirs", 1, "free")
+class _MeanDirs(Base):
+    """mean over two directions at once (tuple / list argument): `mesh.sel(d)` for each of them"""
+    @staticmethod
+    def gen(tys, rng):
+        nd = len(tys[0]["n"])
+        if nd < 3:
+            return None
+        return dict(ax=rng.randrange(nd), off=rng.randrange(nd - 1), aslist=rng.random() < 0.5)
+
+    @staticmethod
+    def rtype(tys, a):
+        t = tys[0]
+        gone = sorted({a["ax"], _other_ax(a, len(t["n"]))}, reverse=True)
+        r = dict(t)
+        for ax in gone:
+            r = _red_type(r, dict(ax=ax))
+        return r
+
+    @staticmethod
+    def run(fs, a):
+        d = fs[0].mesh.region.dims
+        dirs = [d[a["ax"]], d[_other_ax(a, len(d))]]
+        return fs[0].mean(direction=dirs if a["aslist"] else tuple(dirs))
+
+    node = staticmethod(lambda cs, a, o: fresh("reduce", cs[0], axes=[a["ax"], _other_ax(a, o["ndim_in"])]))
+
+
+_FINAL_ONLY = {"fftn": (lambda f, d: f.fftn(), lambda cs, a, o: fresh("same", cs[0])),
+               "rfftn": (lambda f, d: f.rfftn(), lambda cs, a, o: fresh("rfft", cs[0])),
+               "fft_roundtrip": (lambda f, d: f.fftn().ifftn(), lambda cs, a, o: fresh("same", fresh("same", cs[0])))}
+for _n, (_f, _nd) in _FINAL_ONLY.items():
+    _mk_free(_n, _f, real_, lambda t, a: with_(t, cplx=True, grp="K"), _nd)
 
 
 # ---- assigning validity to a freshly built result ----------------------------------------------------
@@ -727,7 +793,7 @@ def try_step(rng, types, name, operands=None):
 def gen_program(rng, mesh, leaves, nsteps, must=None):
     types = [leaf_type(mesh, l["nvdim"], l["cplx"]) for l in leaves]
     steps = []
-    pool = (ALL_SAME * 2 + ALL_AND * 3 + ALL_MAPPED * 4 + ["setv"] * 6 + ["pos"] * 2 + ["mean_dir", "integrate_dir", "integrate_cum"])
+    pool = (ALL_SAME * 2 + ALL_AND * 3 + ALL_MAPPED * 4 + ["setv"] * 6 + ["pos"] * 2 + ["mean_dir", "integrate_dir", "integrate_cum", "mean_dirs"])
     tries = 0
     while len(steps) < nsteps and tries < 200:
         tries += 1
@@ -798,23 +864,98 @@ def sweep_cases(rng, reps):
             yield dict(kind="prog", mesh=mesh, leaves=leaves, steps=steps, sub=rng.getrandbits(32), why="sweep:" + name)
 
 
+# ---- sessions: builds interleaved with IN-PLACE changes of existing fields -----------------------------------------
+HIST_BUILD_POOL = None
+
+
+def gen_hist(rng):
+    """a history over numbered variables: `x_new = op(...)`, `x_i.valid = spec`, `x_i.valid[idx] = v`,
+    `x_i.rotate90(..., inplace=True)`; the generator tracks which variables are names of one object (`+f`)"""
+    global HIST_BUILD_POOL
+    if HIST_BUILD_POOL is None:
+        HIST_BUILD_POOL = ([n for n in ALL_SAME if n != "clone"] * 2 + ALL_AND * 3 + [n for n in ALL_MAPPED if n != "rot_inplace"] * 3
+                           + ["pos"] * 8 + ["clone"] * 6 + ["mean_dir", "integrate_dir", "integrate_cum", "mean_dirs"])
+    mesh = small_mesh(rng)
+    leaves = gen_leaves(rng, rng.choice([1, 2, 2, 3]), cplx_prob=0.05)
+    types = [leaf_type(mesh, l["nvdim"], l["cplx"]) for l in leaves]
+    objs = list(range(len(leaves)))
+    stmts = []
+    want = rng.choice([3, 4, 5, 6, 7])
+    tries = 0
+
+    def build(name, operands=None):
+        r = try_step(rng, types, name, operands)
+        if r is None:
+            return False
+        step, ty = r
+        if ty["grp"] in ("K",):
+            return False
+        stmts.append(dict(s="build", **step))
+        types.append(ty)
+        objs.append(objs[step["in"][0]] if name == "pos" else max(objs) + 1)
+        return True
+
+    while len(stmts) < want and tries < 200:
+        tries += 1
+        u = rng.random()
+        if u < 0.45 or not stmts:
+            name = rng.choice(HIST_BUILD_POOL)
+            cls = OPS[name]
+            operands = None
+            if rng.random() < 0.7:
+                operands = [len(types) - 1] + [rng.randrange(len(types)) for _ in range(cls.arity - 1)]
+                if cls.arity == 2 and rng.random() < 0.5:
+                    operands.reverse()
+            build(name, operands)
+        elif u < 0.65:
+            i = rng.randrange(len(types))
+            kinds = [k for k in SETV_KINDS if not (k == "norm" and types[i]["cplx"]) and not (k == "func_affine" and not types[i]["exact"])]
+            stmts.append(dict(s="assign", i=i, spec=rng.choice(kinds), seed=rng.getrandbits(32)))
+        elif u < 0.88:
+            i = rng.randrange(len(types))
+            stmts.append(dict(s="poke", i=i, pos=rng.randrange(int(np.prod(types[i]["n"]))), v=rng.random() < 0.5))
+        else:
+            i = rng.randrange(len(types))
+            if rng.random() < 0.7:  # a field with a mesh object of its own (in-place rotation turns the Mesh OBJECT)
+                if not build("clone", [i]):
+                    continue
+                i = len(types) - 1
+            a = _rot_gen([types[i]], rng)
+            if a is None:
+                continue
+            stmts.append(dict(s="rotI", i=i, args=a))
+            for j in range(len(types)):
+                if objs[j] == objs[i]:
+                    types[j] = with_(_rot_type([types[j]], a), grp=_rot_type([types[j]], a)["grp"] + "I")
+    return dict(kind="hist", mesh=mesh, leaves=leaves, stmts=stmts, sub=rng.getrandbits(32))
+
+
 SETTER_SPECS = ["none", "true", "false", "int0", "int1", "int2", "neg1", "float0", "float_half", "npfloat", "npint", "negzero",
                 "arr_bool", "arr_int", "arr_float", "arr_tiny", "list_bool", "list_int", "arr_col", "arr_bcast", "arr_ones_col",
                 "func_half", "func_affine", "func_ball", "func_npbool", "func_list", "norm", "norm", "norm",
+                "field_same", "field_same", "field_super", "field_outside",
                 "bad_shape", "bad_last", "bad_str", "bad_obj", "bad_rev", "bad_empty"]
+
+
+# `f.valid = <REAL-valued scalar field>` keeps the field's float dtype (finding D111): generated only when switched on
+FIELD_REAL_SPEC = bool(os.environ.get("VERIF_C08_FIELD_REAL"))
 
 
 def cases(rng, tier):
     quick = tier == "quick"
     yield from sweep_cases(rng, 8 if quick else 60)
-    for _ in range(4000 if quick else 60000):
+    for _ in range(600 if quick else 9000):
+        c = gen_hist(rng)
+        if c["stmts"]:
+            yield c
+    for _ in range(3400 if quick else 52000):
         mesh = small_mesh(rng)
         leaves = gen_leaves(rng, rng.choice([1, 2, 2, 3]))
         steps = gen_program(rng, mesh, leaves, rng.choice([2, 3, 3, 4, 5]))
         if steps:
             yield dict(kind="prog", mesh=mesh, leaves=leaves, steps=steps, sub=rng.getrandbits(32), why="random")
     for rep in range(10 if quick else 150):
-        for spec in SETTER_SPECS:
+        for spec in SETTER_SPECS + (["field_real"] if FIELD_REAL_SPEC else []):
             mesh = small_mesh(rng)
             yield dict(kind="setter", mesh=mesh, nvdim=rng.choice([1, 2, 3]), spec=spec, ctor=rng.random() < 0.4,
                        tiny=(spec == "norm" or rng.random() < 0.1), sub=rng.getrandbits(32))
@@ -945,6 +1086,44 @@ def make_spec(kind, f, rng):
         thr = Fraction(1, 10 ** 16)
         exp = np.array([s > thr for s in sq]).reshape(n)
         return "norm", spec, exp, False
+    if kind in ("field_same", "field_super", "field_outside", "field_real"):
+        # a scalar FIELD as validity (what `resample` hands to the constructor): nearest-cell lookup at the cell centres
+        pmax = [p + k * c for p, k, c in zip(pmin, n, cell)]
+        if kind == "field_super":  # the same cells, some more around them
+            lo = [rng.randint(0, 2) for _ in n]
+            hi = [rng.randint(0, 2) for _ in n]
+            ns = [k + a + b for k, a, b in zip(n, lo, hi)]
+            smin = [p - a * c for p, a, c in zip(pmin, lo, cell)]
+            smax = [p + b * c for p, b, c in zip(pmax, hi, cell)]
+        elif kind == "field_outside":  # shifted by a cell along one axis: does not contain the receiving region
+            ax = rng.randrange(len(n))
+            sgn = rng.choice([-1, 1])
+            ns = list(n)
+            smin = [p + (sgn * c if k == ax else 0) for k, (p, c) in enumerate(zip(pmin, cell))]
+            smax = [p + (sgn * c if k == ax else 0) for k, (p, c) in enumerate(zip(pmax, cell))]
+        else:  # the same region, another number of cells (tie-free, or everything dyadic)
+            ns = [rng.choice([m for m in range(1, 8) if tie_free(m, k) or dyadic_small((b - a) / m)])
+                  for k, a, b in zip(n, pmin, pmax)]
+            smin, smax = pmin, pmax
+        r = f.mesh.region
+        smesh = df.Mesh(region=df.Region(p1=[float(x) for x in smin], p2=[float(x) for x in smax], dims=r.dims, units=r.units), n=ns)
+        sm = fieldio.gen_mask(rng, tuple(ns), rng.choice([0.8, 0.5, 0.3]))
+        if kind == "field_real":
+            g = df.Field(smesh, nvdim=1, value=np.where(sm, 2.5, 0.0)[..., None])
+        else:
+            g = df.Field(smesh, nvdim=1, value=sm[..., None], dtype=bool)
+        scell = [(b - a) / k for a, b, k in zip(smin, smax, ns)]
+        cs = [[a + (i + Fraction(1, 2)) * c for i in range(k)] for a, c, k in zip(smin, scell, ns)]
+        xs = [[a + (i + Fraction(1, 2)) * c for i in range(k)] for a, c, k in zip(pmin, cell, n)]
+        spec = dict(kind="lookup", src=dict(shape=list(ns), data=sm.reshape(-1).tolist()), inside=kind != "field_outside",
+                    cs=[Qs(row) for row in cs], xs=[Qs(row) for row in xs])
+        if kind == "field_outside":
+            return g, spec, None, True
+        near = [[max(range(len(c)), key=lambda i: (-abs(c[i] - x), i)) for x in xrow] for c, xrow in zip(cs, xs)]
+        exp = np.zeros(n, bool)
+        for idx in np.ndindex(*n):
+            exp[idx] = sm[tuple(near[b][idx[b]] for b in range(len(n)))]
+        return g, spec, exp, False
     # malformed
     if kind == "bad_shape":
         shp = list(n)
@@ -1127,6 +1306,114 @@ def run_prog(case):
     return obs
 
 
+def patch_band(mspec, band, observed):
+    """'norm' cells whose length is within rounding of the threshold: either outcome is allowed, the model is told the
+    observed one (stand-in length 1 / 0)"""
+    return dict(mspec, vals=[(Qs([1.0] + [0.0] * (len(row) - 1)) if v else Qs([0.0] * len(row))) if b else row
+                             for row, b, v in zip(mspec["vals"], band, observed)])
+
+
+def snapshot(vals):
+    return [dict(shape=[int(k) for k in f.valid.shape], data=np.asarray(f.valid).astype(bool).reshape(-1).tolist(),
+                 same=min(j for j, g in enumerate(vals) if g is f),
+                 mem=min(j for j, g in enumerate(vals) if np.shares_memory(g.valid, f.valid)))
+            for f in vals]
+
+
+def run_hist(case):
+    rng = random.Random(case["sub"])
+    obs = {"oracle": [], "tags": ["kind:hist", f"ndim:{len(case['mesh']['n'])}"], "stmts": [], "leafmasks": []}
+    fail = obs["oracle"].append
+    # every input field on a Mesh object of its own (equal meshes)
+    vals = [build_leaf(fieldio.build_mesh(case["mesh"]), l, rng) for l in case["leaves"]]
+    obs["leafmasks"] = [dict(shape=[int(k) for k in f.valid.shape], data=f.valid.reshape(-1).tolist()) for f in vals]
+    obs["nontrivial"] = any(0 < int(f.valid.sum()) < f.valid.size for f in vals) and any(st["s"] != "build" for st in case["stmts"])
+    for st in case["stmts"]:
+        kind = st["s"]
+        snaps = [mask_bytes(g) for g in vals]
+        arrays = [np.array(g.array, copy=True) for g in vals]
+        so = dict(ok=False, s=kind)
+        obs["stmts"].append(so)
+        tag = kind
+        try:
+            if kind == "build":
+                name, args = st["op"], st["args"]
+                cls = OPS[name]
+                tag = name
+                obs["tags"].append("op:" + name)
+                ins = [vals[i] for i in st["in"]]
+                so.update(ndim_in=int(ins[0].mesh.region.ndim), nvdim_in=int(ins[0].nvdim))
+                res = cls.run(ins, args)
+                check_result(tag, res, vals, snaps, fail)
+                if not isinstance(res, df.Field):
+                    break
+                vals.append(res)
+            else:
+                i = st["i"]
+                tgt = vals[i]
+                obs["tags"].append("inplace:" + kind)
+                old_buf = tgt.valid  # a reference taken before the statement (`v = f.valid`)
+                old_bytes = old_buf.tobytes()
+                if kind == "assign":
+                    tag = "assign:" + st["spec"]
+                    pyval, mspec, exp, _ = make_spec(st["spec"], tgt, random.Random(st["seed"]))
+                    tgt.valid = pyval
+                    if exp is not None:
+                        band = norm_band(tgt) if st["spec"] == "norm" else np.zeros(exp.shape, bool)
+                        if tgt.valid.shape != exp.shape or not np.array_equal(tgt.valid[~band], exp[~band]):
+                            fail(f"[{tag}] mask is not what the argument says ({int(tgt.valid.sum())} vs {int(exp.sum())} valid cells)")
+                        elif band.any():
+                            mspec = patch_band(mspec, band.reshape(-1).tolist(), tgt.valid.reshape(-1).tolist())
+                    if isinstance(pyval, np.ndarray) and np.shares_memory(tgt.valid, pyval):
+                        fail(f"[{tag}] stored validity shares memory with the array that was assigned")
+                    so["mspec"] = mspec
+                elif kind == "poke":
+                    idx = tuple(int(k) for k in np.unravel_index(st["pos"], tgt.valid.shape))
+                    tgt.valid[idx] = st["v"]
+                elif kind == "rotI":
+                    a = st["args"]
+                    if any((g is not tgt) and (g.mesh is tgt.mesh) for g in vals):
+                        # in-place rotation turns the Mesh OBJECT, which the library shares between a field and the
+                        # results derived from it (C12/C13 matter): only fields with a mesh of their own are turned here
+                        obs["tags"].append("rotI:shared-mesh-skipped")
+                        so["skipped"] = True
+                        break
+                    d = tgt.mesh.region.dims
+                    kw = dict(k=a["turns"])
+                    if a["ref"]:
+                        kw["reference_point"] = tuple(float(x) for x in tgt.mesh.region.pmin)
+                    r = tgt.rotate90(d[a["a"]], d[a["b"]], inplace=True, **kw)
+                    if r is not tgt:
+                        fail("[rotI] in-place rotate90 did not return the field itself")
+                # store model: assignment / in-place rotation bind a NEW buffer, the old one stays as it was
+                so["old_buffer_kept"] = kind == "poke" or (old_buf.tobytes() == old_bytes and not np.shares_memory(old_buf, tgt.valid))
+                # ---- the property, on the real code alone
+                v = tgt.valid
+                if not isinstance(v, np.ndarray) or v.dtype != np.bool_:
+                    fail(f"[{tag}] validity has dtype {getattr(v, 'dtype', type(v))}, not bool")
+                if tuple(v.shape) != tuple(int(k) for k in tgt.mesh.n):
+                    fail(f"[{tag}] validity has shape {tuple(v.shape)}, mesh.n is {tuple(int(k) for k in tgt.mesh.n)}")
+                if kind in ("assign", "poke") and not np.array_equal(arrays[i], tgt.array, equal_nan=True):
+                    fail(f"[{tag}] changing the validity of value {i} changed its stored values")
+                for j, g in enumerate(vals):
+                    if g is tgt:
+                        continue
+                    if mask_bytes(g) != snaps[j]:
+                        fail(f"[{tag}] changing the validity of value {i} in place changed the validity of value {j}")
+                    if not np.array_equal(arrays[j], g.array, equal_nan=True):
+                        fail(f"[{tag}] changing value {i} in place changed the stored values of value {j}")
+        except Exception as e:
+            if isinstance(e, (RuntimeError, ValueError)) and any(r in str(e) for r in REFUSALS):
+                obs["tags"].append("refused:" + tag)
+                so["raised"] = "refused"
+                break
+            fail(f"[{tag}] raised {type(e).__name__}: {str(e)[:160]}")
+            so["raised"] = type(e).__name__
+            break
+        so.update(ok=True, state=snapshot(vals))
+    return obs
+
+
 def run_setter(case):
     rng = random.Random(case["sub"])
     obs = {"oracle": [], "tags": ["kind:setter", "spec:" + case["spec"], "ctor:" + str(case["ctor"])]}
@@ -1186,6 +1473,8 @@ def run_setter(case):
         pyval[...] = (~pyval) if pyval.dtype == bool else (1 - pyval)
         if not np.array_equal(keep, g.valid):
             fail(f"[{tag}] changing the assigned array afterwards changed the field's validity")
+    if isinstance(pyval, df.Field) and (np.shares_memory(v, pyval.array) or np.shares_memory(v, pyval.valid)):
+        fail(f"[{tag}] stored validity shares memory with the field that was assigned")
     obs["nontrivial"] = exp is not None and 0 < int(exp.sum()) < exp.size
     return obs
 
@@ -1193,12 +1482,14 @@ def run_setter(case):
 def run_impl(case):
     if case["kind"] == "prog":
         return run_prog(case)
+    if case["kind"] == "hist":
+        return run_hist(case)
     return run_setter(case)
 
 
 # ============================================================================ model side
 def model_tree(case, obs, upto):
-    """model program (tree) of step `upto`, model leaves = input fields + results of `free` steps"""
+    """model program (tree) of step `upto` over the input fields"""
     nl = len(case["leaves"])
     leaves = list(obs["leafmasks"])
     leafvals = list(range(nl))
@@ -1213,11 +1504,7 @@ def model_tree(case, obs, upto):
             st = case["steps"][v - nl]
             so = obs["steps"][v - nl]
             cls = OPS[st["op"]]
-            if cls.kind == "free":
-                leaves.append(dict(shape=so["shape"], data=so["mask"]))
-                leafvals.append(v)
-                r = dict(t="leaf", k=len(leaves) - 1)
-            elif cls.kind == "setv":
+            if cls.kind == "setv":
                 child = value(st["in"][0])
                 r = dict(t="setv", spec=so["mspec"], p=un(child))
             else:
@@ -1229,9 +1516,70 @@ def model_tree(case, obs, upto):
     return tree, leaves, leafvals
 
 
+def hist_request(case, obs):
+    """the history as the model's statements: builds are programs over the VARIABLES (leaf k = variable k)"""
+    stmts = []
+    for st, so in zip(case["stmts"], obs["stmts"]):
+        if not so.get("ok"):
+            break
+        if st["s"] == "build":
+            prog = OPS[st["op"]].node([dict(t="leaf", k=i) for i in st["in"]], st["args"], so)
+            stmts.append(dict(s="build", prog=prog))
+        elif st["s"] == "assign":
+            stmts.append(dict(s="assign", i=st["i"], spec=so["mspec"]))
+        elif st["s"] == "poke":
+            stmts.append(dict(s="poke", i=st["i"], pos=st["pos"], v=bool(st["v"])))
+        else:
+            stmts.append(dict(s="rotI", i=st["i"], a=st["args"]["a"], b=st["args"]["b"], turns=st["args"]["turns"]))
+    return dict(op="hist", leaves=obs["leafmasks"], stmts=stmts)
+
+
+def compare_hist(case, obs, r):
+    dis = []
+    states = r.get("ok")
+    done = [so for so in obs["stmts"] if so.get("ok")]
+    if states is None or len(states) != len(done):
+        return [f"history: model returned {len(states) if states is not None else r} states for {len(done)} executed statements"]
+    for k, (so, ms) in enumerate(zip(done, states)):
+        st = case["stmts"][k]
+        what = f"statement {k} ({st['s']} {st.get('op', '')} {st.get('i', st.get('in'))})"
+        if isinstance(ms, dict):
+            dis.append(f"{what}: impl ok vs model {ms}")
+            break
+        if len(ms) != len(so["state"]):
+            dis.append(f"{what}: {len(so['state'])} variables impl vs {len(ms)} model")
+            break
+        if so.get("old_buffer_kept") is False:
+            dis.append(f"{what}: model binds a new validity buffer and leaves the old one untouched; impl changed or kept using the old array")
+        for j, (iv, mv) in enumerate(zip(so["state"], ms)):
+            if iv["shape"] != mv["mask"]["shape"]:
+                dis.append(f"{what}: variable {j} shape impl {iv['shape']} vs model {mv['mask']['shape']}")
+            elif iv["data"] != mv["mask"]["data"]:
+                dis.append(f"{what}: variable {j} validity impl vs model differ "
+                           f"(impl {sum(iv['data'])} valid cells, model {sum(mv['mask']['data'])})")
+        # which variables are names of one object / read one buffer (code as it stands: only unary plus shares)
+        for j, (iv, mv) in enumerate(zip(so["state"], ms)):
+            mo = min(i for i, x in enumerate(ms) if x["obj"] == mv["obj"])
+            ma = min(i for i, x in enumerate(ms) if x["addr"] == mv["addr"])
+            if mo != iv["same"]:
+                dis.append(f"{what}: variable {j} is the object of variable {iv['same']} (impl) vs {mo} (model)")
+            if ma != iv["mem"]:
+                dis.append(f"{what}: variable {j} shares validity memory with variable {iv['mem']} (impl) vs {ma} (model)")
+        if dis:
+            break
+    return dis
+
+
 def model_requests(case, obs):
+    if case["kind"] == "hist":
+        return [hist_request(case, obs)]
     if case["kind"] == "setter":
         m = obs["mspec"]
+        if m["kind"] == "lookup":
+            # mask-level request: the setter node applied to the field's current mask
+            f0 = obs["field"]
+            return [dict(op="eval", leaves=[dict(shape=f0["mesh"]["n"], data=f0["valid"])],
+                         prog=dict(t="setv", spec=m, p=dict(t="leaf", k=0)))]
         if m["kind"] == "func":
             spec = dict(kind="func", fun=m["fun"])
         elif m["kind"] == "norm":
@@ -1243,8 +1591,6 @@ def model_requests(case, obs):
     for k, so in enumerate(obs["steps"]):
         if not so.get("ok"):
             break
-        if OPS[case["steps"][k]["op"]].kind == "free":
-            continue
         tree, leaves, leafvals = model_tree(case, obs, k)
         reqs.append(dict(op="eval", leaves=leaves, prog=tree, _step=(k, leafvals)))
     obs["_req_steps"] = [r.pop("_step") for r in reqs]
@@ -1253,10 +1599,17 @@ def model_requests(case, obs):
 
 def compare(case, obs, rs):
     dis = []
+    if case["kind"] == "hist":
+        return compare_hist(case, obs, rs[0])
     if case["kind"] == "setter":
         r = rs[0]
         if ("ok" in r) != bool(obs["ok"]):
             dis.append(f"setter {case['spec']}: impl {'ok' if obs['ok'] else 'err ' + obs.get('err', '')} vs model {'ok' if 'ok' in r else r}")
+            return dis
+        if obs["ok"] and obs["mspec"]["kind"] == "lookup":
+            got = obs["res"]
+            if r["ok"]["shape"] != got["mesh"]["n"] or r["ok"]["data"] != got["valid"]:
+                dis.append(f"setter {case['spec']}: mask impl {got['valid']} vs model {r['ok']}")
             return dis
         if obs["ok"]:
             mj = r["ok"]
@@ -1272,6 +1625,8 @@ def compare(case, obs, rs):
     for (k, leafvals), r in zip(obs.get("_req_steps", []), rs):
         st, so = case["steps"][k], obs["steps"][k]
         what = f"step {k} ({st['op']} {st['args']})"
+        if r.get("wf") != ("ok" in r):
+            dis.append(f"{what}: model's acceptance check wf = {r.get('wf')} but its evaluator {'accepted' if 'ok' in r else 'rejected'}")
         if "ok" not in r:
             dis.append(f"{what}: impl ok vs model {r}")
             continue
@@ -1307,14 +1662,22 @@ def nontrivial(case, obs):
 
 
 def known(case, text):
+    if case["kind"] == "setter" and case.get("spec") == "field_real" and ("dtype" in text or "mask is not what the argument says" in text):
+        return "D111"
     # D7: `+f` returns the operand itself -> its validity is shared.  Exactly the ownership failures of the unary-plus step.
-    if case["kind"] == "prog" and text.startswith("[pos] ") and ("shares memory" in text or "write-through" in text):
+    if case["kind"] in ("prog", "hist") and text.startswith("[pos] ") and ("shares memory" in text or "write-through" in text):
         return "D7"
     return None
 
 
 def search(case, rng):
-    if case["kind"] == "prog":
+    if case["kind"] == "hist":
+        for k in range(len(case["stmts"]), 0, -1):
+            for _ in range(3):
+                yield dict(case, stmts=case["stmts"][:k], sub=rng.getrandbits(32))
+        for _ in range(40):
+            yield dict(case, sub=rng.getrandbits(32))
+    elif case["kind"] == "prog":
         for k in range(len(case["steps"]), 0, -1):
             for _ in range(3):
                 yield dict(case, steps=case["steps"][:k], sub=rng.getrandbits(32))
@@ -1327,6 +1690,14 @@ def search(case, rng):
 
 def shrink(failure):
     case = failure["case"]
+    if case["kind"] == "hist":
+        for k in range(1, len(case["stmts"])):
+            c2 = dict(case, stmts=case["stmts"][:k])
+            o2 = run_impl(c2)
+            bad = [t for t in o2["oracle"] if known(c2, t) is None]
+            if bad:
+                return dict(case=c2, kind="oracle", text=bad[0])
+        return failure
     if case["kind"] != "prog":
         return None
     best = failure
